@@ -54,5 +54,21 @@ theorem config_setters : Extracted.configSetters = [
     ("age.(*ScryptIdentity).SetMaxWorkFactor", "maxWorkFactor"),
     ("age.(*ScryptRecipient).SetWorkFactor", "workFactor")] := by decide
 
+/-- **positive controls**: the empty lists above are not the emptiness of a broken analysis. The call graph reaches
+    from the roots the functions one knows they call (the per-stanza unwraps, `wrapWithLabels`, `multiUnwrap`, the
+    stream writer); the store scan sees the stores one knows are there (`w.err` in `(*Writer).Write`, the nonce
+    increment) and attributes them to `Encrypt`'s destination; the detail table projects onto the summary; and the
+    global-write detection does fire where a global IS written (`stdinInUse` of cmd/age, informational) -/
+theorem controls :
+    Extracted.roots.all (fun r => Extracted.reachable.contains r) = true ∧
+    ["age.(*X25519Identity).unwrap", "age.(*ScryptIdentity).unwrap", "agessh.(*RSAIdentity).unwrap",
+     "agessh.(*Ed25519Identity).unwrap", "age.wrapWithLabels", "age.multiUnwrap", "stream.(*Writer).Write",
+     "stream.incNonce"].all (fun f => Extracted.reachable.contains f) = true ∧
+    Extracted.stores.contains ("stream.(*Writer).Write", "assign", "w.err", "recv") = true ∧
+    Extracted.stores.contains ("stream.incNonce", "incdec", "nonce[i]", "param #0 *[12]byte") = true ∧
+    Extracted.perOperationStores.contains ("age.Encrypt", "param #0 io.Writer", "stream.(*Writer).Write", "w.err") = true ∧
+    Extracted.sharedStoresDetail.map (fun s => (s.2.2.1, s.2.2.2.1, s.2.2.2.2)) = Extracted.sharedStores ∧
+    Extracted.mutatedGlobalsCmd.contains ("main.stdinInUse", "main.main", "stdinInUse") = true := by decide
+
 end Tie.C20
 end AgeModel
